@@ -153,10 +153,17 @@ def c14_r4(ctx: Ctx, rule):
         n = node_of(gg, c)
         dom = gg.dominators(labels_excluded=("exc",))
         tests = [gg.nodes[i] for i in dom.get(n.id, set()) if gg.nodes[i].kind == "test"]
-        bad = [t for t in tests if isinstance(t.stmt.test, ast.Compare) and isinstance(t.stmt.test.ops[0], (ast.In, ast.NotIn)) and not isinstance(t.stmt.test.comparators[0], (ast.Constant,)) and "edge_data" not in norm(t.stmt.test)]
-        res.ob("graph_to_prov: %s guarded by %s" % (norm(c), [norm(t.stmt.test)[:50] for t in tests]))
-        for t in bad:
-            res.fail(rule.id, "graph-dedupe::%s" % norm(t.stmt.test)[:50], ctx.loc(gq, t.stmt), "graph_to_prov skips a record under the membership test `%s`: records hash and compare by value" % norm(t.stmt.test)[:60],
+        bad = []
+        for t in tests:
+            conj = t.stmt.test.values if isinstance(t.stmt.test, ast.BoolOp) else [t.stmt.test]
+            for cj in conj:
+                if isinstance(cj, ast.UnaryOp) and isinstance(cj.op, ast.Not):
+                    cj = cj.operand
+                if isinstance(cj, ast.Compare) and isinstance(cj.ops[0], (ast.In, ast.NotIn)) and not isinstance(cj.comparators[0], ast.Constant) and "edge_data" not in norm(cj):
+                    bad.append((t, cj))
+        res.ob("graph_to_prov: %s guarded by %s" % (norm(c), [norm(t.stmt.test)[:70] for t in tests]))
+        for t, cj in bad:
+            res.fail(rule.id, "graph-dedupe::%s" % norm(cj)[:50], ctx.loc(gq, t.stmt), "graph_to_prov skips a record under the membership test `%s`: records hash and compare by value" % norm(cj)[:60],
                      "two identical relations without identifier between the same nodes: two edges, but only one relation in the rebuilt document")
     return res
 
